@@ -84,3 +84,65 @@ Proof.
         destruct Hin as [<-|[]]; cbn; lia.
       * destruct (String.eqb "a" n); [|discriminate]. injection Hl as <-. destruct Hin.
 Qed.
+
+(* ------------------------------------------------------------------------------------------------ the cycle guard *)
+
+Lemma safe_terminates :
+  forall is_std std_log env fuel path n,
+    safe is_std env fuel path n = true -> update_unit_multiplier is_std std_log env fuel n <> ROutOfFuel.
+Proof.
+  intros is_std std_log env fuel.
+  induction fuel as [|f IH]; intros path n Hs; [discriminate Hs|].
+  cbn [safe] in Hs. apply andb_true_iff in Hs. destruct Hs as [_ Hs].
+  cbn [update_unit_multiplier]. destruct (lookup env n) as [its|] eqn:Hl; [|discriminate].
+  apply items_loop_fuel. intros it Hin Hstd Hdef.
+  rewrite forallb_forall in Hs. specialize (Hs it Hin). rewrite Hstd in Hs. cbn [orb] in Hs.
+  destruct (lookup env (ui_ref it)); [|congruence].
+  now apply (IH (n :: path)).
+Qed.
+
+(** with the guard the modelled reducer returns on EVERY environment, cyclic or not *)
+Theorem cycle_guard_terminates :
+  forall is_std std_log env n, guarded_multiplier is_std std_log env n <> ROutOfFuel.
+Proof.
+  intros is_std std_log env n. unfold guarded_multiplier, has_units_cycle.
+  destruct (safe is_std env (S (length env)) [] n) eqn:Hs; cbn [negb]; [|discriminate].
+  now apply (safe_terminates is_std std_log env (S (length env)) [] n).
+Qed.
+
+Lemma safe_of_rank :
+  forall is_std env (rank : string -> nat),
+    (forall n its it, lookup env n = Some its -> In it its -> is_std (ui_ref it) = false ->
+                      lookup env (ui_ref it) <> None -> rank (ui_ref it) < rank n) ->
+    forall fuel path n, rank n < fuel -> (forall p, In p path -> rank n < rank p) ->
+                        safe is_std env fuel path n = true.
+Proof.
+  intros is_std env rank Hdec fuel.
+  induction fuel as [|f IH]; intros path n Hlt Hpath; [lia|].
+  cbn [safe]. apply andb_true_iff. split.
+  - apply negb_true_iff. destruct (existsb (String.eqb n) path) eqn:E; [|reflexivity].
+    apply existsb_exists in E. destruct E as (p & Hin & Heq). apply String.eqb_eq in Heq. subst p.
+    specialize (Hpath n Hin). lia.
+  - destruct (lookup env n) as [its|] eqn:Hl; [|reflexivity].
+    apply forallb_forall. intros it Hin. destruct (is_std (ui_ref it)) eqn:Hs; [reflexivity|]. cbn [orb].
+    destruct (lookup env (ui_ref it)) eqn:Hr; [|reflexivity].
+    assert (Hrk : rank (ui_ref it) < rank n) by (apply (Hdec n its it Hl Hin Hs); rewrite Hr; discriminate).
+    apply IH; [lia|].
+    intros p [<-|Hp]; [exact Hrk|specialize (Hpath p Hp); lia].
+Qed.
+
+(** on an acyclic environment the guard never fires: the guarded function IS the unguarded one *)
+Theorem cycle_guard_transparent :
+  forall is_std std_log env, acyclic is_std env ->
+    forall n, guarded_multiplier is_std std_log env n = update_unit_multiplier is_std std_log env (S (length env)) n.
+Proof.
+  intros is_std std_log env [rank [Hb Hdec]] n. unfold guarded_multiplier, has_units_cycle.
+  rewrite (safe_of_rank is_std env rank Hdec (S (length env)) [] n); [reflexivity| |intros p []].
+  specialize (Hb n). lia.
+Qed.
+
+(** and on the two-cycle it answers "no factor" instead of recursing for ever *)
+Example cycle_guard_two_cycle :
+  guarded_multiplier no_std no_log two_cycle "a" = RFalse /\ guarded_multiplier no_std no_log two_cycle "b" = RFalse
+  /\ has_units_cycle no_std chain3 "c" = false.
+Proof. repeat split; reflexivity. Qed.
